@@ -327,7 +327,7 @@ def check_frames(ctx, f: FuncInfo, rule="DEP-frame", recursive_name: typing.Opti
         if isinstance(c, ast.Call) and unparse(c.func).endswith(recursive_name):
           args = [unparse(a) for a in c.args]
           n += 1
-          ok = bv in args and ev in args and args.index(ev) == args.index(bv) + 1 and args[-1] == unparse(loop.target)
+          ok = bv in args and ev in args and args.index(ev) == args.index(bv) + 1 and unparse(loop.target) in args
           if ok:
             callee_params = f.params
             ok = callee_params[args.index(bv)] == pb and callee_params[args.index(ev)] == pe_
@@ -638,6 +638,9 @@ DEST_AXIS = {  # keyword / field the computed length is stored into -> axis
 }
 
 
+PROCESSOR_DEST = {"Disparity": W}   # tts:disparity is a horizontal offset (percentage of the root container width)
+
+
 def check_axes(ctx, rule="AXIS"):
   ix = ctx.ix
   n = 0
@@ -652,6 +655,14 @@ def check_axes(ctx, rule="AXIS"):
       n += 1
       src, pct, em, cref, px = call.args
       a_pct, a_em, a_c, a_px = (axis_of(comp, x) for x in (pct, em, cref, px))
+
+      def leaves(a):
+        if isinstance(a, tuple) and a[0] == "cond":
+          return leaves(a[2]) | leaves(a[3])
+        return {a}
+      # a reference that is the parent's font size or, failing that, one cell height is a font size
+      if name not in ("Padding",):
+        a_pct, a_em = (FS if (isinstance(a, tuple) and leaves(a) <= {FS, H, None} and FS in leaves(a)) else a for a in (a_pct, a_em))
       key = f"{comp.qualname}|_compute_length({short(src, 40)})"
       where = ctx.where(comp.module, call)
       # destination axis
@@ -668,6 +679,8 @@ def check_axes(ctx, rule="AXIS"):
           dest = "block"
         if tname in ("c_start", "c_end"):
           dest = "inline"
+      if dest is None and name in PROCESSOR_DEST:
+        dest = PROCESSOR_DEST[name]
       problems = []
       if a_em not in (FS, None):
         problems.append(f"em reference is {a_em}, must be the font size")
